@@ -1091,6 +1091,40 @@ fn gen_c17(rng: &mut Rng) -> Plan {
     if rng.chance(1, 2) {
         gen::gen_changes(rng, &mut plan, 4, false, 2);
     }
+    // rarely: a cover grid — dozens of pictures requested at once through clones of one
+    // client (33-130 callers, one small picture each, two to four chunks)
+    if rng.chance(1, 150) {
+        let n = *rng.pick(&[33usize, 40, 65, 130]);
+        let limit = *rng.pick(&[16usize, 100, 1000]);
+        plan.binary_limit = limit;
+        plan.pictures.clear();
+        plan.callers.clear();
+        for i in 0..n {
+            let uri = format!("grid/{}.flac", i);
+            let size = limit * rng.urange(1, 3) + rng.urange(0, 5);
+            let data = rng.bytes(size);
+            plan.pictures.push(Picture {
+                uri: uri.clone(),
+                embedded: if i % 3 == 0 {
+                    None
+                } else {
+                    Some(Embedded { data: data.clone(), mime: if i % 2 == 0 { Some("image/jpeg".into()) } else { None } })
+                },
+                cover: Cover::Bytes(data),
+                readpicture_unknown: false,
+                readpicture_error: None,
+                albumart_error: None,
+                later_error: None,
+                chunk_caps: Vec::new(),
+                header_before_error: false,
+                mime_only_first_chunk: false,
+                embedded_vanishes_at: None,
+            });
+            plan.callers.push(vec![Op::AlbumArt { uri }]);
+        }
+        plan.net = NetPolicy::default();
+        plan.net.s2c_latency_ms = *rng.pick(&[0u32, 1, 3]);
+    }
     // rarely: megabyte chunks and a picture beyond the sizes someone might cap at (1 MiB, 16 MiB)
     if rng.chance(1, 400) {
         let (limit, size) = *rng.pick(&[
@@ -1164,6 +1198,9 @@ impl Check for C17 {
     fn run_index(&self, seed: u64, index: u64, _tier: Tier, ctx: &mut WorkerCtx<Plan>, known: &KnownFindings) {
         let mut rng = Rng::new(mix(seed, "C17", index));
         let plan = gen_c17(&mut rng);
+        if plan.callers.len() >= 33 {
+            ctx.counters.bump("art.cover_grid_33_or_more_concurrent_pictures");
+        }
         ctx.about_to_eval(&plan);
         let (ev, out) = eval_with(&plan, oracle::check_c17, nt_c17);
         for pic in &plan.pictures {
